@@ -829,6 +829,16 @@ fn mutations(enc: &[u8]) -> Vec<Vec<u8>> {
             edit(&mut out, i);
         }
     }
+    // text encodings (JSON, decimal / hex text): at EVERY position a sign, a separator, a blank or a non-digit letter
+    if !enc.is_empty() && enc.iter().all(|b| b.is_ascii_graphic()) {
+        for i in 0..enc.len() {
+            for x in *b"+-_ g" {
+                let mut e = enc.to_vec();
+                e[i] = x;
+                out.push(e);
+            }
+        }
+    }
     // a zero inserted near the front (leading zero in the payload), with and without bumping the preceding (length) byte
     for i in 0..enc.len().min(4) {
         let mut e = enc.to_vec();
@@ -887,6 +897,9 @@ fn valid_encodings(bits: usize, v: &BigUint) -> Vec<Vec<u8>> {
         rc::bincode(v, (v.bits() as usize + 7) / 8),
     ];
     if fits {
+        // full-width (zero-padded) hexadecimal text, bare and as a JSON string
+        encs.push(format!("0x{:0>w$}", v.to_str_radix(16), w = 2 * nb).into_bytes());
+        encs.push(format!("\"0x{:0>w$}\"", v.to_str_radix(16), w = 2 * nb).into_bytes());
         encs.push(rc::fixed_le(v, nb));
         encs.push(rc::fixed_be(v, nb));
         encs.push(rc::fixed_le(v, nb + 1));
